@@ -155,6 +155,46 @@ def r2_creds(ctx, F):
                 if st[0] == "dead" and st[1] in holders and m.local_ty(st[1]).find("Scoped") >= 0 and m.names.get(st[1]):
                     early = True
         ctx.check("R2-credentials", nm + "/guards-live", not early, "%s drops the credential guards before the creating call" % nm, loc=calls[0].loc())
+    # every credential switch in the passthrough (also those in closures, e.g. re-opening an existing file in create): the guards
+    # must outlive the next operation after the switch -- `let _ = set_creds(..)?` would restore root before it
+    nsites = 0
+    for k, m in sorted(F.fns.items()):
+        if not k.startswith("passthrough::") or m.exp or "::tests::" in k or m.name == "set_creds":
+            continue
+        for s0 in [c for c in live_calls(m) if c.name == "set_creds" and (c.fn or "").endswith("passthrough::set_creds")]:
+            nsites += 1
+            owner = m.name if m.kind != "closure" else F.fns[m.owner].name + "/closure"
+            # the first operation performed under the switched credentials
+            after = [c for c in live_calls(m) if c is not s0 and c.name not in ("branch", "from_residual") and m.dominates(s0.bb, c.bb) and c.bb != s0.bb]
+            after.sort(key=lambda c: len(m.reach_set(s0.bb, avoid={c.bb})))
+            if not ctx.check("R2-credentials", "site/%s#%d/protects" % (owner, nsites), bool(after), "%s switches credentials and then does nothing under them" % owner, loc=s0.loc()):
+                continue
+            p0 = after[0]
+            holders = {s0.dest[0]}
+            region = m.reach_set(s0.bb, avoid={p0.bb})
+            changed = True
+            while changed:
+                changed = False
+                for bb in region:
+                    for st in m.stmts(bb):
+                        if st[0] == "=" and st[2][0] == "use" and st[2][1][0] in ("m", "c") and st[2][1][1][0] in holders and st[1][0] not in holders:
+                            holders.add(st[1][0])
+                            changed = True
+                    t = m.term(bb)
+                    if t[0] == "call" and t[1]["dest"] and t[1]["dest"][0] not in holders and any(a[0] != "k" and a[1][0] in holders for a in t[1].get("args", [])) \
+                            and m.call_at(bb) is not None and m.call_at(bb).name == "branch":
+                        holders.add(t[1]["dest"][0])
+                        changed = True
+            early = False
+            for bb in region:
+                if not m.can_reach(bb, p0.bb):
+                    continue
+                t = m.term(bb)
+                if t[0] == "drop" and t[1][0] in holders and "Scoped" in m.local_ty(t[1][0]) and "Result" not in m.local_ty(t[1][0]) and "ControlFlow" not in m.local_ty(t[1][0]):
+                    early = True
+            ctx.check("R2-credentials", "site/%s#%d/guards-live" % (owner, nsites), not early,
+                      "%s drops the credential guards right after switching, before `%s` runs: the operation is performed with the server's credentials" % (owner, p0.name), loc=s0.loc())
+    ctx.check("R2-credentials", "sites", nsites >= 5, "only %d credential switches found in the passthrough" % nsites)
     # set_creds: gid first, then uid; both with the given ids
     b = F.fn("passthrough::set_creds")
     ctx.fn_seen(b)
